@@ -1,7 +1,7 @@
 """C04 - evaluation results do not depend on scheduling (sub-graph partition; order / hash-seed independence)."""
 from contracts.dr import M, TS
 
-SIDECARS = ["dr"]
+SIDECARS = ["dr", "dr_det"]      # dr_det: the process() interface as a function of (component, instances) + the snapshot invariant of run_components
 UNITS = [
     (M, "get_subgraphs"),
     (TS, "toposort"),
@@ -51,9 +51,46 @@ LEMMAS = [dict(
     ],
     goals=["(c in i1) == (c in i2)", "implies(c in i1, i1[c] == i2[c])",
            "(c in m1) == (c in m2)", "implies(c in m1, m1[c] == m2[c])"])]
-NOT_CARRIED += ["that run_components establishes the local rule LOC for every processed component is not an obligation yet: "
-                "the lemma C04-L1-step is the inductive step over the level function only (induction on levels is the meta-step)",
-                "determinism and locality of process() are hypotheses of the lemma (bodies are assumed deterministic)"]
+# ---- C04-L0 (contracts only): what run_components' postcondition (verified on the real loop against the deterministic process() interface of
+# contracts/dr_det.py) says about the FINAL broker is the local rule LOC of C04-L1-step, for every component of the executed order, provided the
+# order is topological for what each component reads and the outcome function is local in those reads.
+from contracts.dr import RC_POST
+from contracts.dr_det import DET_INV
+from pyvc.dsl import List, INT
+
+
+def _rn(t):
+    return (t.replace("ordered_components", "ordered").replace("old(broker.instances)", "seeds").replace("broker.instances", "final")
+             .replace("old(broker.missing_requirements)", "m0").replace("broker.missing_requirements", "miss"))
+
+
+LEMMAS.append(dict(
+    name="C04-L0-run_components-establishes-LOC",
+    module=M,
+    decls=collections.OrderedDict(c=Comp, p=INT, ordered=List(Comp), att=List(Comp), attpos=List(INT), attidx=Map(Comp, INT), snap=List(_INST),
+                                  seeds=_INST, final=_INST, miss=_MISS, m0=_MISS, reads=Set(Comp)),
+    hyps=[_rn(t) for t in RC_POST] + [_rn(t) for t in DET_INV] + [
+        "forall(x, attidx, 0 <= attidx[x] and attidx[x] < len(att) and att[attidx[x]] == x)",
+        "distinct(ordered)",
+        # the guard of run_components: exactly the runnable, unseeded components of the order are attempted
+        "forall(k, range(0, len(ordered)), implies(ordered[k] not in seeds and uf('runnable', BOOL, ordered[k]), ordered[k] in attidx))",
+        "forall(j, range(0, len(att)), att[j] not in seeds and uf('runnable', BOOL, att[j]))",
+        # c takes part, at position p; everything it reads that takes part sits at an earlier position (topological order), and it does not read itself
+        "0 <= p and p < len(ordered) and ordered[p] == c",
+        "c not in reads",
+        "forall(q, range(0, len(ordered)), implies(ordered[q] in reads, q < p))",
+        # locality of the outcome function: it reads the broker only at `reads` (instantiated for what c saw and the final broker)
+        "implies(c in attidx, implies(forall(d, reads, (d in snap[attidx[c]]) == (d in final) and implies(d in final, snap[attidx[c]][d] == final[d])), "
+        "        uf('out_raises', BOOL, c, snap[attidx[c]]) == uf('out_raises', BOOL, c, final) and "
+        "        uf('out_value', Opt(Val), c, snap[attidx[c]]) == uf('out_value', Opt(Val), c, final) and "
+        "        uf('out_exc', EXC, c, snap[attidx[c]]) == uf('out_exc', EXC, c, final)))",
+    ],
+    goals=[_loc("final", "miss")]))
+NOT_CARRIED += ["run_components is verified (group `deterministic`) against a process() interface that is a function of the component and the broker's "
+                "instances, and the lemma C04-L0 derives the local rule LOC of the final broker from its postcondition; that ComponentType.process / "
+                "rule.process / datasource and parser invocation refine that functional interface clause is NOT an obligation (they are functional in "
+                "the assumed body functions of the argument list): determinism and locality of process() remain assumptions",
+                "C04-L1-step is the inductive step over the level function (induction on levels is the meta-step)"]
 
 
 def bounded(check):
